@@ -1652,6 +1652,43 @@ def gen_access(repo):
              'simd_vector/simd_vector_{double,float}.h: every operator + - * / (member compound forms and free functions) of the sse / avx / avx512 vector types: '
              '(0 double 1 float, operator 1 + 2 - 3 * 4 /, compound, vector width of the overload 1 sse 2 avx 3 avx512 (enclosing type or parameter types), width of the intrinsics it issues (0: none), '
              'the one arithmetic intrinsic besides set1: 1 add 2 sub 3 mul 4 div 5 neg 0 none, every intrinsic carries the suffix of the element type pd / ps)')
+    # ---- tensor_algebra/network_contraction.h + meta/opmin_meta.h: the three pairwise orders of a three-tensor network (C15)
+    def network3():
+        om = nospace(strip_comments(G.src('meta/opmin_meta.h')))
+        i0 = om.find('structtriplet_flop_cost<Index<Idx0...>,Index<Idx1...>,Index<Idx2...>,')
+        if i0 < 0: raise XErr('triplet_flop_cost specialisation not found')
+        sec = om[i0:om.find('};', i0)]
+        ri = {}
+        for m in re.finditer(r'usingresulting_(index|tensor)_(\d)=typenameget_resuling_(index|tensor)<Index<Idx(\d)\.\.\.>,Index<Idx(\d)\.\.\.>,Tensor<T,Rest(\d)\.\.\.>,Tensor<T,Rest(\d)\.\.\.>>::type;', sec):
+            kind, k, kind2, a, b, ra, rb = m.groups()
+            if kind != kind2 or (a, b) != (ra, rb): raise XErr('resulting_%s_%s: index lists and tensors do not correspond' % (kind, k))
+            ri.setdefault(int(k), {})[kind] = (int(a), int(b))
+        if sorted(ri) != [0, 1, 2] or any(v.get('index') != v.get('tensor') for v in ri.values()): raise XErr('resulting_index_k / resulting_tensor_k: %s' % ri)
+        mv = re.search(r'staticconstexprintwhich_variant=meta_argmin<flop_count_01,flop_count_02,flop_count_12,flop_count_012>::value;', sec)
+        if not mv: raise XErr('which_variant is not the argmin of (flop_count_01, flop_count_02, flop_count_12, flop_count_012)')
+        nc = strip_comments(G.src('tensor_algebra/network_contraction.h'))
+        body, _ = find_scope(nc, r'contract_impl\s*\(const\s+Tensor<T,Rest0\.\.\.>\s*&a,\s*const\s+Tensor<T,Rest1\.\.\.>\s*&b,\s*const\s+Tensor<T,Rest2\.\.\.>\s*&c\)\s*\{', 0)
+        b = nospace(preprocess(body, set()))
+        for k in range(3):
+            if 'usingresulting_index_%d=typenamecost_model::resulting_index_%d;' % (k, k) not in b: raise XErr('resulting_index_%d is not cost_model::resulting_index_%d' % (k, k))
+        if 'constexprintwhich_variant=cost_model::which_variant;' not in b: raise XErr('which_variant is not cost_model::which_variant')
+        idx = r'(?:Index<Idx(\d)\.\.\.>|resulting_index_(\d))'
+        br = (r'autotmp=einsum<Index<Idx(\d)\.\.\.>,Index<Idx(\d)\.\.\.>>\(([abc]),([abc])\);returneinsum<' + idx + ',' + idx + r'>\((tmp|[abc]),(tmp|[abc])\);')
+        m = re.search(r'FASTOR_IF_CONSTEXPR\(which_variant==0\)\{' + br + r'\}elseFASTOR_IF_CONSTEXPR\(which_variant==1\)\{' + br + r'\}else\{' + br + r'\}', b)
+        if not m: raise XErr('the three branches on which_variant (tmp = einsum of a pair; return einsum of tmp with the third) not recognised')
+        g = m.groups(); rows = []; L = {'a': 0, 'b': 1, 'c': 2}
+        for v in range(3):
+            A, Bi, oa, ob, l_idx, l_res, r_idx, r_res, p, q = g[v * 10:(v + 1) * 10]
+            tmp_first = p == 'tmp'
+            if (p == 'tmp') == (q == 'tmp'): raise XErr('variant %d: tmp must be exactly one operand of the second einsum' % v)
+            res = l_res if tmp_first else r_res; other_idx = r_idx if tmp_first else l_idx; other = q if tmp_first else p
+            if res is None or other_idx is None: raise XErr('variant %d: the index list at the position of tmp is not a resulting_index / the other is not an Index<Idx...>' % v)
+            rows.append('(%d, (%d, %d), (%d, %d), %d, (%d, %d), %d, %d, %s)' % (v, int(A), int(Bi), L[oa], L[ob], int(res), ri[int(res)]['index'][0], ri[int(res)]['index'][1], int(other_idx), L[other], B(tmp_first)))
+        return '[' + (';' + NL).join(rows) + ']'
+    G.define('gen_network3', '', 'list (nat * (nat * nat) * (nat * nat) * nat * (nat * nat) * nat * nat * bool)', network3,
+             'tensor_algebra/network_contraction.h extractor_contract_3::contract_impl with meta/opmin_meta.h triplet_flop_cost: per branch of which_variant (= argmin of the three pairwise costs and the single-evaluation cost): '
+             '(variant, index lists of the first einsum, its operands (0 a 1 b 2 c), k of the resulting_index_k given to tmp, the pair resulting_index_k is defined from in the cost model, '
+             'index list and operand of the third tensor, tmp is the first operand of the second einsum); tensors and index lists of resulting_*_k correspond (checked by the translator)')
     hdr = ('(** GENERATED by lib/cxx2v.py from the C++ source of /repo on every run -- do not edit.\n'
            '    Index expression of every operand / result access of the transpose and matmul kernels;\n'
            '    structure of the reductions and predicates of AbstractTensorFunctions.h. *)\n'
